@@ -97,6 +97,25 @@ def op_grid():
     return G
 
 
+def positional_grid(Client):
+    """every key-addressed method called with its arguments given by POSITION, in the order of the plain Client's signature (the reference): all
+    prefixes of the full argument list, with values that tell the parameters apart (noreply False against a default of True, flags 3, expire 10)"""
+    import inspect
+    by_name = {"key": ["K"], "value": ["VAL"], "cas": ["CAS"], "expire": [10], "noreply": [False, True], "flags": [3], "default": [DEFAULT], "cas_default": [CASDEFAULT],
+               "keys": [["K", "k2"]], "values": [{"K": "VAL", "k2": "VAL"}]}
+    G = []
+    for m in ("set", "add", "replace", "append", "prepend", "cas", "set_many", "get", "gets", "gat", "gats", "get_many", "gets_many", "delete", "delete_many", "incr", "decr", "touch"):
+        params = [p_ for p_ in inspect.signature(getattr(Client, m)).parameters.values() if p_.name != "self"]
+        if any(p_.name not in by_name for p_ in params) and m not in ("incr", "decr"):
+            continue            # a signature this grid does not know: the Lean signature table (regenerated from the source) is what notices that
+        need = sum(1 for p_ in params if p_.default is inspect.Parameter.empty)
+        for upto in range(need, len(params) + 1):
+            choices = [([3] if (m in ("incr", "decr") and p_.name == "value") else by_name.get(p_.name, [None])) for p_ in params[:upto]]
+            for combo in itertools.product(*choices):
+                G.append((m, tuple(combo), {}))
+    return G
+
+
 def main(argv):
     ctx = Ctx("C16", argv)
     ctx.prepare_lean()
@@ -126,6 +145,10 @@ def main(argv):
         cfgs = [c for i, c in enumerate(cfgs) if i % 3 == 0 or c["encoding"] == "utf8" or str(c["_serde"]).startswith("legacy")]
     states = ["hit", "miss", "cas-mismatch", "non-numeric", "numeric", "empty-value"]
     grid = op_grid()
+    seen_calls = {(op, repr(a), repr(k_)) for op, a, k_ in grid}
+    pos_extra = [g for g in positional_grid(Client) if (g[0], repr(g[1]), repr(g[2])) not in seen_calls]
+    npos = len(pos_extra)
+    grid += pos_extra
     n = 0
     for cfg in cfgs:
         kw = {k: v for k, v in cfg.items() if not k.startswith("_")}
@@ -139,7 +162,9 @@ def main(argv):
             kw["connect_timeout"], kw["timeout"] = cfg["_tmo"]
         K, VAL = cfg["_key"], cfg["_val"]
         for state in states:
-            for (op, args, okw) in grid:
+            for gi, (op, args, okw) in enumerate(grid):
+                if not ctx.thorough and gi >= len(grid) - npos and state not in ("hit", "numeric"):
+                    continue          # the all-positional forms: two server states in the quick tier
                 if not ctx.thorough and (n % 2) and op in ("add", "replace", "prepend", "decr"):
                     n += 1
                     continue
